@@ -211,6 +211,13 @@ def concurrent_check(res, pid, cone, kinds, n_quick, n_thorough, oracle, known, 
                     directed.append(("cblock", c))
         # quick: the first program of each kind, every 4th deviation (which quarter depends on the seed);
         # thorough: every program, every deviation
+        if "dep" in kinds:
+            # a finished future passed twice, followed by an independent call, on a single worker behind the resolver
+            for sch in ([0] * 900, lockstep.gen_schedule(res.rng, 900), lockstep.gen_schedule(res.rng, 900)):
+                directed.append(("dep", {"mode": "dep-block", "max_workers": 1,
+                                         "calls": [{"raises": False}, {"raises": False, "deps": [1, 1]}, {"raises": False}],
+                                         "ops": [["submit", 1], ["result", 1], ["submit", 2], ["submit", 3], ["result", 3],
+                                                 ["shutdown", True, False]], "schedule": sch, "step_limit": 4000}))
         syst = systematic(kinds, per_kind=1, stride=4, offset=res.seed % 4) if res.tier == "quick" else systematic(kinds)
         runs = explore(res, kinds, n, allow_fail, extra_cases=corpus + directed + syst)
         res.cov["corpus_cases"] = len(corpus)
